@@ -5,9 +5,9 @@
 set -u
 export GOFLAGS=-mod=mod GOPROXY=off GOSUMDB=off GOTOOLCHAIN=local
 P=$1; M=$2
-SRC=/tmp/seed2/$P/out/$M
-WT=/tmp/mv2/${P}_$M
-RES=/tmp/mv2/results; mkdir -p $RES
+SRC=${SEEDDIR:-/tmp/seed2}/$P/out/$M
+WT=${MVDIR:-/tmp/mv2}/${P}_$M
+RES=${MVDIR:-/tmp/mv2}/results; mkdir -p $RES
 OUT=$RES/${P}_$M.json
 rm -rf $WT; mkdir -p $WT
 git -C /repo archive HEAD | tar -x -C $WT
